@@ -14,7 +14,8 @@ FUNCTIONS = ['cflib.crazyflie:_IncomingPacketHandler.run', 'cflib.crazyflie:_Inc
 STUBS = ['threading.Thread.start/is_alive/join (no OS thread; run() is stepped once per packet and left through Yield '
          'raised by the fake link\'s receive_packet)', 'FakeLink (recording link)', 'logging disabled']
 ASSUMPTIONS = ['context switches only at blocking calls: dispatch of one packet is not preempted',
-               'registrations are pairwise distinct (distinct callback objects)',
+               'registrations are pairwise distinct as tuples (distinct callback objects in match/mutate/combined; one shared callback with '
+               'distinct patterns in shared-callback)',
                'oracle is lenient where the statement is silent: a registration removed during the dispatch of a packet '
                'before its turn, or added during that dispatch, may or may not receive that packet']
 OUTSIDE = ['exceptions raised by all-packet (packet_received) callbacks', 'more registrations/packets than the bound']
@@ -123,6 +124,41 @@ def _concretise(sym, v):
     return 4
 
 
+def h_shared_callback(sym):
+    """Registrations are distinct as TUPLES (port, port mask, channel, channel mask, callback): the same callback object may be
+    registered several times with different patterns. Removing one registration must stop deliveries for that registration only;
+    the callback is invoked once per remaining matching registration."""
+    R = sym.B['regs']
+    cf = _CF()
+    inc = _IncomingPacketHandler(cf)
+    count = [0]
+
+    def shared(pk):
+        count[0] += 1
+    regs = []
+    for i in range(R):
+        r = (sym.int(f'port{i}', 0, 255), sym.int(f'pmask{i}', 0, 255), sym.int(f'ch{i}', 0, 255), sym.int(f'cmask{i}', 0, 255))
+        for q in regs:
+            sym.assume(not (r[0] == q[0] and r[1] == q[1] and r[2] == q[2] and r[3] == q[3]))
+        regs.append(r)
+        inc.add_header_callback(shared, r[0], r[2], r[1], r[3])
+    sym.apply_known()
+    victim = sym.choice('victim', R)
+    v = regs[victim]
+    inc.remove_header_callback(shared, v[0], v[2], v[1], v[3])
+    hdr = sym.int('hdr', 0, 255)
+    cf.link.rx.append(CRTPPacket(hdr, [1]))
+    assert step(inc) == 'yield', 'dispatcher thread died'
+    port, chan = hdr >> 4, hdr & 3
+    expected = 0
+    for i, r in enumerate(regs):
+        if i != victim and r[0] == (port & r[1]) and r[2] == (chan & r[3]):
+            expected += 1
+    assert count[0] == expected, ('deliveries after removing one of several registrations of the same callback', count[0], expected)
+    if expected:
+        sym.goal('still-delivered')
+
+
 def h_caller(sym):
     """Caller.call: every callback registered when call() starts is invoked exactly once, in order, with the
     arguments, also when callbacks add/remove callbacks (snapshot semantics)."""
@@ -174,5 +210,6 @@ HARNESSES = [
     # both at once, small
     Harness('combined', h_dispatch, quick=dict(regs=2, packets=1), thorough=dict(regs=2, packets=2), timeout=(200, 2000),
             goals=('delivered', 'removed-during-dispatch')),
+    Harness('shared-callback', h_shared_callback, quick=dict(regs=2), thorough=dict(regs=3), timeout=(300, 1800), goals=('still-delivered',)),
     Harness('caller', h_caller, quick=dict(n=3), thorough=dict(n=4), timeout=(120, 600)),
 ]
